@@ -434,6 +434,28 @@ ASSUME = [
     "beyond the exhaustive bound the inputs are a seeded random sample",
 ]
 
+def all_options_cases(tier, rng, count):
+    """a slice of C01's family - small inputs x a random point of the WHOLE option space (every cycle breaker incl. the
+    option combinations that must be ignored, layerer, positioner, router, size mode, spacings incl. 0, thoroughness, output
+    option, name alphabet): every unary predicate is also judged on it, so that an interaction between two options that a
+    property's own grid does not contain still meets the property's oracle (the Applies predicates decide relevance)"""
+    out = 0
+    for c in c01_cases(tier, rng):
+        if c["n"] + len(c["edges"]) > 60 or c.get("nokf"):
+            continue
+        if c["p5"] == "splines" and core.case_facts(c)["_degenerate_corridor_or_bk"]:
+            continue                       # may hang (known findings of C01); C01 itself runs them
+        c = dict(c)
+        if c["virt"] == 1:
+            c.pop("names", None)           # helper names + helper nodes in the output: ambiguous output (correction 18)
+        if c["p2"] == "ns":
+            c["cert"] = 1                  # C10 needs the optimality certificate of the harness
+        out += 1
+        yield c
+        if out >= count:
+            return
+
+
 FAMILIES = {
     "C02": c02_cases, "C03": c03_cases, "C04": c04_cases, "C05": c05_cases, "C06": c06_cases,
     "C14": lambda tier, rng: vary(c14_cases(tier, rng)), "C16": c16_cases,
@@ -456,6 +478,9 @@ def run_unary(prop, tier, seed, replay):
             rng = random.Random(seed * 7919 + int(prop[1:]))
             dd = K.Dedup()
             cs = [c for c in FAMILIES[prop](tier, rng) if dd.fresh(c)]
+            if prop != "C01":
+                cs += [c for c in all_options_cases(tier, random.Random(seed * 104729 + int(prop[1:])), 2500 if tier == "quick" else 20000)
+                       if dd.fresh(c)]
         if prop == "C01":
             # small inputs with a tight heap budget (a runaway allocation is caught in a fraction of a second),
             # the size sweeps with a large one
@@ -508,6 +533,11 @@ def run_unary(prop, tier, seed, replay):
                 pd = engine.pipeline_diag(work, driver, cs, limit=400 if tier == "quick" else 4000)
                 if pd:
                     models.append(pd)
-        return engine.report(prop, res, known, tier, seed, {"exhaustive_family": fam_E(tier)}, ASSUME, t0, RULES[prop], level_models=models)
+        rule = RULES[prop]
+        if prop != "C01" and not replay:
+            rule += ("; plus an all-options slice: %d small inputs, each with a random point of the whole option space of C01 (every cycle "
+                     "breaker incl. option combinations that must be ignored, layerer, positioner, router, size mode, spacings incl. 0, "
+                     "thoroughness, output option, name alphabets), judged wherever the property applies" % (2500 if tier == "quick" else 20000))
+        return engine.report(prop, res, known, tier, seed, {"exhaustive_family": fam_E(tier)}, ASSUME, t0, rule, level_models=models)
     finally:
         work.cleanup()
